@@ -122,7 +122,7 @@ def _transform(R):
         if any(short(c.name).endswith("ExpressionExecutionEngine::evaluate") for c in ch.calls):
             tcl = ch
     if tcl is None:
-        R.violation("C04.transform", "extract_result_rows_by_column|no-transform", "no transform closure evaluating the wrapper expression found", [f.loc()])
+        _transform_inline(R, f)
         return
     # calls of that closure in f
     tcalls = [c for c in f.calls if (c.func.get("trait") or "").startswith("core::ops::function::Fn") and
@@ -163,6 +163,79 @@ def _transform(R):
                     R.violation("C04.transform", "extract_result_rows_by_column|untransformed",
                                 "a value is collected into an aggregate's result column without passing through the aggregate's wrapper "
                                 "expression (e.g. the COUNT = 0 / NULL fallback of a group without entry): `COUNT(c) + 1` would show 0", [a.loc()])
+    if n == 0:
+        R.violation("C04.transform", "extract_result_rows_by_column|no-values-loop", "no per-group push of aggregate values found", [f.loc()])
+
+
+def _transform_inline(R, f):
+    """the wrapper applied through a helper function (or spelled out) instead of a local closure: on the function with its helpers and
+    combinators inlined, every definition that reaches a pushed aggregate value is either the result of evaluating the aggregate's
+    `transform` expression or lies under the `None` edge of a test of that `transform`"""
+    P = R.prog
+    fd = PR.desugared(P, f)
+    def from_transform(op):
+        return "transform" in F.source_fields(fd, op, depth=10) or \
+            any((o.place is not None and isinstance(o.place, dict) and "p" in o.place and "transform" in place_fields(o.place)) or
+                (o.kind == "call" and o.call.args and F.TRANSPARENT.search(short(o.call.name)) and
+                 "transform" in F.source_fields(fd, o.call.args[0], depth=10))
+                for o in F.origins(fd, op, depth=14))
+    evs = [c for c in fd.calls if short(c.name).endswith("ExpressionExecutionEngine::evaluate") and len(c.args) > 1 and from_transform(c.args[1])]
+    none_edges = []
+    for b in range(len(fd.blocks)):
+        info = F.switch_info(fd, b)
+        if not info or info[0] != "discr":
+            continue
+        pl = info[1]["pl"]
+        if "transform" not in place_fields(pl) and not from_transform({"k": "copy", "pl": {"l": pl["l"], "p": []}}):
+            continue
+        names = dict(info[1].get("variants", []))
+        listed = [names.get(l) for l in info[2] if l != "otherwise"]
+        for lab, tgt in info[2].items():
+            vn = names.get(lab) if lab != "otherwise" else ([n for n in names.values() if n not in listed] or [None])[0]
+            if vn == "None":
+                none_edges.append((b, tgt))
+    if not evs or not none_edges:
+        R.violation("C04.transform", "extract_result_rows_by_column|no-transform", "the aggregate's wrapper expression (`transform`) is not evaluated "
+                    "under a test of its presence", [f.loc()])
+        return
+
+    def through(op, depth):
+        if depth == 0 or op["k"] == "const":
+            return False
+        l = op["pl"]["l"]
+        cdefs = [c for c in fd.calls if c.dest is not None and c.dest["l"] == l and not c.dest["p"]]
+        adefs = [(i_, s_) for i_, s_ in fd.stmts() if s_["k"] == "assign" and s_["pl"]["l"] == l and not s_["pl"]["p"]]
+        if not cdefs and not adefs:
+            return False
+        for c in cdefs:
+            if c in evs or any(PR.dominated_by_edge(fd, c.bb, sw, t) for sw, t in none_edges):
+                continue
+            if re.search(r"Try>::branch$", short(c.name)) and c.args and through(c.args[0], depth - 1):
+                continue
+            return False
+        for i_, s_ in adefs:
+            if any(PR.dominated_by_edge(fd, i_, sw, t) for sw, t in none_edges):
+                continue
+            rv = s_["rv"]
+            if rv["k"] == "use" and rv["op"]["k"] in ("copy", "move"):
+                if not through({"k": "copy", "pl": {"l": rv["op"]["pl"]["l"], "p": []}}, depth - 1):
+                    return False
+            else:
+                return False
+        return True
+    pushes = [c for c in fd.calls if short(c.name) == "alloc::vec::Vec::push" and (c.func.get("res_targs") or c.targs)[:1] == [V]]
+    n = 0
+    for pc in pushes:
+        lp = PR.loop_of(fd, pc.bb)
+        if not lp or not [c for c in fd.calls if c.bb in lp[1] and re.search(r"btree::map::Values<|hash::map::Values<", short(c.name))]:
+            continue
+        n += 1
+        if through(pc.args[1], 14):
+            R.ok("C04.transform", "extract_result_rows_by_column|values", "pushed value = transform evaluated, or the value itself where there is no transform", pc.loc())
+        else:
+            R.violation("C04.transform", "extract_result_rows_by_column|untransformed",
+                        "a value is pushed into an aggregate's result column without passing through the aggregate's wrapper expression "
+                        "(e.g. the COUNT = 0 / NULL fallback of a group without entry): `COUNT(c) + 1` would show 0", [pc.loc()])
     if n == 0:
         R.violation("C04.transform", "extract_result_rows_by_column|no-values-loop", "no per-group push of aggregate values found", [f.loc()])
 
